@@ -26,7 +26,7 @@ def run(prop, tier):
     quick = tier == "quick"
     r = rng(prop)
     with Scratch(prop) as wd:
-        mc = tlc.model_check("Partition", "Partition.cfg", wd, timeout=280)
+        mc = tlc.model_check("Partition", "Partition.cfg", wd, timeout=900)
         rep.add_tlc(mc, "exhaustive: overlay laws on the reference definition (all chains over 3 keys, length <= 3, both staging kinds)")
         jobs = []
         chains = []
